@@ -5,13 +5,21 @@ MODULES = ["contracts.c03_folding", "contracts.c09_expand", "contracts.c05_basic
 HEAD = "import sys\nsys.path.insert(0, '/verif')\nfrom replay_lib.opt_native import main\n"
 
 
+# inductive loop invariants of functions under a C09 contract (obligation names: <function>.loop<k>.<init|preserve>.<label>)
+LOOP_FUNCTIONS = ("_check_dims_sufficient", "_check_expand_removable", "_compute_broadcast_shape")
+
+
 def INCLUDE(name):
     m = re.match(r"(C\d\d)\.", name)
-    return m is not None and m.group(1) == "C09"
+    if m is not None:
+        return m.group(1) == "C09"
+    return ".loop" in name and name.split(".loop")[0] in LOOP_FUNCTIONS
 
 
 def replay(ob):
     n = ob["name"]
+    if "any_rank" in n or (".loop" in n and n.split(".loop")[0] in LOOP_FUNCTIONS[:3]):
+        return HEAD + "main(['expand_search'])\n"
     if "ScatterAllDynamic" in n:
         return HEAD + "main(['scatter_dynamic_shape_attrs'])\n"
     if "expand_removable.strategy" in n and "same_output_dims" in n:
